@@ -104,3 +104,82 @@ def radialrange_against_dense_sampling(c, n):
     c.ensures('dmin<=every-sampled-distance', ops.le(mn[0], min(ds)))
     c.ensures('dmax>=every-sampled-distance', ops.le(max(ds), mx[0]))
     c.ensures('d==|point(t)-z|', ops.And(ops.eq(mn[0], abs(bez.bern(P, mn[1]) - z)), ops.eq(mx[0], abs(bez.bern(P, mx[1]) - z))))
+
+
+# ---------------------------------------------------------------- paths
+
+from contracts.c05 import mkpath  # noqa: E402
+
+PATH_SHAPES = [{'kinds': k} for k in ['L', 'C', 'LQ', 'CL', 'QLC']]
+
+
+def _install_segment_radialrange(c, segs):
+    """call-site contract of seg.radialrange(origin) (obligations: the segment contracts above):
+    ((dmin,tmin),(dmax,tmax)) with 0 <= dmin <= dmax"""
+    from pyvc import sym
+    table = {}
+
+    def rr(ip, f, args, kwargs):
+        seg = args[0]
+        i = [k for k, s in enumerate(segs) if s is seg][0]
+        if i not in table:
+            dmin, dmax = c.real('dmin%d' % i), c.real('dmax%d' % i)
+            tmin, tmax = c.real('tmin%d' % i), c.real('tmax%d' % i)
+            ip.ctx.assume(sym.zbool(sym.And(sym.le(0, dmin), sym.le(dmin, dmax))))
+            table[i] = ((dmin, tmin), (dmax, tmax))
+        return table[i]
+    for cls in ('Line', 'QuadraticBezier', 'CubicBezier'):
+        c.ip.summaries['path.%s.radialrange' % cls] = rr
+    return table
+
+
+@contract('C13', 'path.Path.radialrange', params=[dict(p, _no_bounded=True) for p in PATH_SHAPES], level='per-shape')
+def path_radialrange(c, kinds):
+    path, segs, pts = mkpath(c, kinds)
+    z = c.cplx('z')
+    table = _install_segment_radialrange(c, segs)
+    mn, mx = c.items(c.callm(path, 'radialrange', z))
+    dmin, tmin, imin = c.items(mn)
+    dmax, tmax, imax = c.items(mx)
+    n = len(segs)
+    # some point of the path is not the query point (otherwise no farthest segment exists)
+    c.assume(ops.Or(*[ops.lt(0, table[i][1][0]) for i in range(n)]))
+    c.ensures('min-index-in-range', isinstance(imin, int) and 0 <= imin < n)
+    c.ensures('max-index-in-range', isinstance(imax, int) and 0 <= imax < n)
+    if not (isinstance(imin, int) and isinstance(imax, int)):
+        return
+    c.ensures('(dmin,tmin)-is-the-result-of-segment-imin', ops.And(ops.eq(dmin, table[imin][0][0]), ops.eq(tmin, table[imin][0][1])))
+    c.ensures('(dmax,tmax)-is-the-result-of-segment-imax', ops.And(ops.eq(dmax, table[imax][1][0]), ops.eq(tmax, table[imax][1][1])))
+    for i in range(n):
+        c.ensures('dmin<=min-of-segment-%d' % i, ops.le(dmin, table[i][0][0]))
+        c.ensures('dmax>=max-of-segment-%d' % i, ops.le(table[i][1][0], dmax))
+    got = {}
+
+    def spy(ip, f, args, kwargs):
+        got['a'] = args
+        return ('MIN', 'MAX')
+    c.ip.summaries['path.Path.radialrange'] = spy
+    c.ensures('closest_point_in_path==radialrange(pt)[0]', c.call('path.closest_point_in_path', z, path) == 'MIN' and got['a'][0] is path and c.py_eq(got['a'][1], z) is True)
+    c.ensures('farthest_point_in_path==radialrange(pt)[1]', c.call('path.farthest_point_in_path', z, path) == 'MAX' and got['a'][0] is path)
+
+
+@contract('C13', 'path.Path.radialrange', params=[{'kinds': k, '_bounded_only': True} for k in ['L', 'LQ', 'QLC', 'CC']])
+def path_radialrange_against_dense_sampling(c, kinds):
+    path, segs, pts = mkpath(c, kinds)
+    z = c.cplx('z')
+    for P in pts:
+        if len(P) == 2:
+            c.assume(P[0] != P[1])
+    mn, mx = c.callm(path, 'radialrange', z)
+    best = None
+    far = None
+    for i, P in enumerate(pts):
+        for k in range(201):
+            d = abs(bez.bern(P, k / 200.0) - z)
+            best = d if best is None else min(best, d)
+            far = d if far is None else max(far, d)
+    c.ensures('dmin<=sampled', ops.le(mn[0], best))
+    c.ensures('dmax>=sampled', ops.le(far, mx[0]))
+    c.ensures('index-and-parameter-attain-it', ops.And(ops.eq(mn[0], abs(bez.bern(pts[mn[2]], mn[1]) - z)),
+                                                        ops.eq(mx[0], abs(bez.bern(pts[mx[2]], mx[1]) - z))))
+    c.ensures('closest/farthest', c.call('path.closest_point_in_path', z, path) == mn and c.call('path.farthest_point_in_path', z, path) == mx)
